@@ -171,7 +171,11 @@ def judge_event(w, eid, hids, flags, shapes_of, bad, tag):
     elif got != exp:
         bad.append((tag + 'value', 'Value of %s holds %r, handlers produced %r' % (tag, got, vals)))
     if nested:
-        pass    # how the error flag of a nested Value combines with the outer one is not stated by the property: not judged
+        # whether a failure inside the nested event counts as one of this event is not stated by the property: not judged; that a
+        # raise of one of THIS event's handlers sets the flag is stated, whatever else the handlers return
+        if raises and not val.errors:
+            bad.append((tag + 'errors-flag:lost-next-to-nested-value', 'errors flag is %r although %d handler(s) of the event raised (another handler returned the '
+                        'Value of a nested event)' % (val.errors, raises)))
     elif bool(val.errors) != bool(raises):
         bad.append((tag + 'errors-flag', 'errors flag is %r although %d handler(s) raised' % (val.errors, raises)))
     for h in hids:
